@@ -91,22 +91,82 @@ Proof.
 Qed.
 
 (* ---- the generic line loop ---- *)
-Lemma read_lines_concat {A} (parse : list N -> option A) (line : A -> list N) (l : list A) :
-  (forall r, In r l -> ~ In LF (line r) /\ utf8_valid (line r) = true /\
+Lemma read_lines_gen_concat {A} (check : list N -> bool) (parse : list N -> option A)
+    (line : A -> list N) (l : list A) :
+  (forall r, In r l -> ~ In LF (line r) /\ check (line r) = true /\
                        strip_cr (line r) = line r /\ parse (line r) = Some r) ->
   forall fuel, (length (concat (map (fun r => line r ++ [LF]) l)) < fuel)%nat ->
-  read_lines fuel parse (concat (map (fun r => line r ++ [LF]) l)) = Some l.
+  read_lines_gen check fuel parse (concat (map (fun r => line r ++ [LF]) l)) = Some l.
 Proof.
   induction l as [|r l IH]; intros H fuel Hf.
   - destruct fuel; [lia|]. reflexivity.
   - destruct fuel as [|f]; [lia|]. cbn [map concat] in *. rewrite !app_length in Hf. cbn [length] in Hf.
     destruct (H r (or_introl eq_refl)) as (Hlf & Hu & Hs & Hp).
-    rewrite <- app_assoc. cbn [app]. cbn [read_lines].
+    rewrite <- app_assoc. cbn [app]. cbn [read_lines_gen].
     destruct (line r ++ LF :: concat (map (fun r0 => line r0 ++ [LF]) l)) eqn:E;
       [destruct (line r); discriminate|]. rewrite <- E. clear E.
     rewrite break_at_app by exact Hlf. rewrite Hu, Hs, Hp.
     rewrite IH; [reflexivity| |lia].
     intros r' Hr'. apply H. right. exact Hr'.
+Qed.
+
+Lemma read_lines_concat {A} (parse : list N -> option A) (line : A -> list N) (l : list A) :
+  (forall r, In r l -> ~ In LF (line r) /\ utf8_valid (line r) = true /\
+                       strip_cr (line r) = line r /\ parse (line r) = Some r) ->
+  forall fuel, (length (concat (map (fun r => line r ++ [LF]) l)) < fuel)%nat ->
+  read_lines fuel parse (concat (map (fun r => line r ++ [LF]) l)) = Some l.
+Proof. apply read_lines_gen_concat. Qed.
+
+(* a numeric field that parses is ASCII, so the from_utf8 step of the fai reader's numeric fields
+   is implied by the parse *)
+Lemma take_digits_all_digits s : forall a k v n,
+  take_digits s a k = (v, n, []) -> Forall (fun c => is_digit c = true) s.
+Proof.
+  induction s as [|c t IH]; intros a k v n H; [constructor|].
+  cbn [take_digits] in H. destruct (is_digit c) eqn:Ed; [|discriminate].
+  constructor; [exact Ed|]. eapply IH. exact H.
+Qed.
+
+Lemma parse_N_ascii s v : parse_N s = Some v -> ascii s.
+Proof.
+  unfold parse_N. destruct (take_digits s 0 0) as [[v' n] rest] eqn:E.
+  destruct n; [discriminate|]. destruct rest; [|discriminate]. intros _.
+  apply digits_ascii. eapply take_digits_all_digits. exact E.
+Qed.
+
+Lemma parse_dec_unsigned_ascii s z : parse_dec false s = Some z -> ascii s.
+Proof.
+  unfold parse_dec. intros H.
+  assert (Hn : forall t, option_map Z.of_N (parse_N t) = Some z -> ascii t).
+  { intros t Ht. destruct (parse_N t) eqn:E; [|discriminate]. eapply parse_N_ascii. exact E. }
+  destruct s as [|c t]; [constructor|].
+  destruct (N.eq_dec c 43) as [E|E]; [subst c|].
+  - constructor; [lia|]. apply Hn. exact H.
+  - destruct (N.eq_dec c 45) as [E2|E2]; [subst c; discriminate|].
+    assert (Hs : option_map Z.of_N (parse_N (c :: t)) = Some z).
+    { destruct c as [|p]; [exact H|].
+      do 6 (destruct p as [p|p|]; try exact H); try exact H; try lia. }
+    apply Hn. exact Hs.
+Qed.
+
+Lemma parse_u64_ascii s n : parse_u64 s = Some n -> ascii s.
+Proof.
+  unfold parse_u64, parse_int. destruct (parse_dec false s) as [z|] eqn:E; [|discriminate].
+  intros _. eapply parse_dec_unsigned_ascii. exact E.
+Qed.
+
+Theorem parse_u64_bytes_eq s : parse_u64_bytes s = parse_u64 s.
+Proof.
+  unfold parse_u64_bytes. destruct (parse_u64 s) as [n|] eqn:E.
+  - rewrite utf8_valid_ascii; [reflexivity|]. eapply parse_u64_ascii. exact E.
+  - destruct (utf8_valid s); reflexivity.
+Qed.
+
+Theorem parse_nz_u64_bytes_eq s : parse_nz_u64_bytes s = parse_nz_u64 s.
+Proof.
+  unfold parse_nz_u64_bytes, parse_nz_u64. destruct (parse_u64 s) as [n|] eqn:E.
+  - rewrite utf8_valid_ascii; [reflexivity|]. eapply parse_u64_ascii. exact E.
+  - destruct (utf8_valid s); reflexivity.
 Qed.
 
 (* ---------- fai ---------- *)
@@ -116,9 +176,10 @@ Definition fai_line (r : fai_rec) : list N :=
 
 Definition fits_u64 (n : N) : Prop := n < 18446744073709551616.
 
-(* names: valid UTF-8 without TAB and LF (CR is fine: only a CR right before the LF is dropped) *)
+(* names: any bytes except TAB and LF (CR is fine: only a CR right before the LF is dropped, and
+   a line ends with a digit) *)
 Definition fai_ok (r : fai_rec) : Prop :=
-  utf8_valid (f_name r) = true /\ ~ In TAB (f_name r) /\ ~ In LF (f_name r) /\
+  ~ In TAB (f_name r) /\ ~ In LF (f_name r) /\
   fits_u64 (f_len r) /\ fits_u64 (f_pos r) /\ 1 <= f_lb r /\ fits_u64 (f_lb r) /\ 1 <= f_lw r /\ fits_u64 (f_lw r).
 
 Lemma w_fai_rec_line r : w_fai_rec r = fai_line r ++ [LF].
@@ -133,7 +194,7 @@ Proof. intros Hn Hb [E|Hin]; [congruence|tauto]. Qed.
 
 Lemma parse_fai_line r : fai_ok r -> parse_fai_rec (fai_line r) = Some r.
 Proof.
-  intros (Hu & Ht & Hl & H1 & H2 & H3 & H4 & H5 & H6). unfold parse_fai_rec, fai_line.
+  intros (Ht & Hl & H1 & H2 & H3 & H4 & H5 & H6). unfold parse_fai_rec, fai_line.
   destruct (f_name r ++ TAB :: fmt_N (f_len r) ++ TAB :: fmt_N (f_pos r) ++ TAB :: fmt_N (f_lb r)
             ++ TAB :: fmt_N (f_lw r)) eqn:E; [destruct (f_name r); discriminate|]. rewrite <- E. clear E.
   rewrite break_at_app by exact Ht.
@@ -152,17 +213,15 @@ Proof.
 Qed.
 
 Lemma fai_line_ok r : fai_ok r ->
-  ~ In LF (fai_line r) /\ utf8_valid (fai_line r) = true /\ strip_cr (fai_line r) = fai_line r /\
+  ~ In LF (fai_line r) /\ no_check (fai_line r) = true /\ strip_cr (fai_line r) = fai_line r /\
   parse_fai_rec (fai_line r) = Some r.
 Proof.
-  intros Hok. pose proof Hok as (Hu & Ht & Hl & _). split; [|split; [|split]].
+  intros Hok. pose proof Hok as (Ht & Hl & _). split; [|split; [|split]].
   - unfold fai_line.
     repeat (first [apply not_in_app; [first [exact Hl | apply digits_no_sep; [apply fmt_N_digits|unfold LF; lia]]|]
                   | apply not_in_cons; [unfold LF, TAB; lia|]]).
     apply digits_no_sep; [apply fmt_N_digits|unfold LF; lia].
-  - unfold fai_line. rewrite utf8_valid_app by exact Hu. apply utf8_valid_ascii.
-    repeat (apply ascii_tab_digits; [apply fmt_N_digits|]).
-    constructor; [unfold TAB; lia|]. apply digits_ascii. apply fmt_N_digits.
+  - reflexivity.
   - unfold fai_line.
     replace (f_name r ++ TAB :: fmt_N (f_len r) ++ TAB :: fmt_N (f_pos r) ++ TAB :: fmt_N (f_lb r) ++ TAB :: fmt_N (f_lw r))
       with ((f_name r ++ TAB :: fmt_N (f_len r) ++ TAB :: fmt_N (f_pos r) ++ TAB :: fmt_N (f_lb r) ++ [TAB]) ++ fmt_N (f_lw r))
@@ -171,30 +230,38 @@ Proof.
   - apply parse_fai_line. exact Hok.
 Qed.
 
+(* names are any bytes without TAB and LF -- valid UTF-8 or not (since the `fix:` commit 24986d3) *)
 Theorem fai_roundtrip l : Forall fai_ok l -> read_fai (w_fai l) = Some l.
 Proof.
-  intros Hok. unfold read_fai, w_fai.
+  intros Hok. unfold read_fai, w_fai, read_lines_bytes.
   replace (map w_fai_rec l) with (map (fun r => fai_line r ++ [LF]) l)
     by (apply map_ext; intros r; symmetry; apply w_fai_rec_line).
-  apply read_lines_concat; [|lia].
+  apply read_lines_gen_concat; [|lia].
   intros r Hr. apply fai_line_ok. rewrite Forall_forall in Hok. auto.
 Qed.
 
-(* the known finding `fai-non-utf8-name`, in the model: when the line written for a record is
-   not valid UTF-8 (its name is not), the reader fails on the file the writer produced *)
-Theorem fai_non_utf8_line_rejected r rest :
-  ~ In LF (f_name r) -> utf8_valid (fai_line r) = false -> read_fai (w_fai (r :: rest)) = None.
+(* the former known finding `fai-non-utf8-name`, now positive: a record whose name is not valid
+   UTF-8 reads back *)
+Corollary fai_non_utf8_name_roundtrip r rest :
+  utf8_valid (f_name r) = false -> Forall fai_ok (r :: rest) ->
+  read_fai (w_fai (r :: rest)) = Some (r :: rest).
+Proof. intros _ Hok. apply fai_roundtrip. exact Hok. Qed.
+
+(* a numeric field is still text: a line whose second field is not valid UTF-8 is rejected *)
+Lemma parse_u64_non_utf8 f : utf8_valid f = false -> parse_u64 f = None.
 Proof.
-  intros Hl Hv. unfold read_fai, w_fai. cbn [map concat]. rewrite w_fai_rec_line.
-  rewrite <- app_assoc. cbn [app length read_lines].
-  destruct (fai_line r ++ LF :: concat (map w_fai_rec rest)) eqn:E; [destruct (fai_line r); discriminate|].
-  rewrite <- E. clear E.
-  assert (Hn : ~ In LF (fai_line r)).
-  { unfold fai_line.
-    repeat (first [apply not_in_app; [first [exact Hl | apply digits_no_sep; [apply fmt_N_digits|unfold LF; lia]]|]
-                  | apply not_in_cons; [unfold LF, TAB; lia|]]).
-    apply digits_no_sep; [apply fmt_N_digits|unfold LF; lia]. }
-  rewrite break_at_app by exact Hn. rewrite Hv. reflexivity.
+  intros Hv. destruct (parse_u64 f) as [n|] eqn:E; [|reflexivity].
+  apply parse_u64_ascii in E. apply utf8_valid_ascii in E. congruence.
+Qed.
+
+Theorem fai_non_utf8_numeric_rejected name f rest :
+  ~ In TAB name -> ~ In TAB f -> utf8_valid f = false ->
+  parse_fai_rec (name ++ TAB :: f ++ TAB :: rest) = None.
+Proof.
+  intros Hn Hf Hv. unfold parse_fai_rec.
+  destruct (name ++ TAB :: f ++ TAB :: rest) eqn:E; [destruct name; discriminate|]. rewrite <- E. clear E.
+  rewrite break_at_app by exact Hn. rewrite break_at_app by exact Hf.
+  rewrite parse_u64_non_utf8 by exact Hv. reflexivity.
 Qed.
 
 (* ---------- crai ---------- *)
